@@ -694,3 +694,154 @@ func (p *Prog) ReadFile(rel string) ([]byte, error) {
 	}
 	return os.ReadFile(abs)
 }
+
+// CallTargets resolves the product functions a call may invoke: the static callee, or for an interface method the
+// implementing methods of product types. When the receiver is (a type assertion of / a local assigned from) an
+// interface-typed struct field, the implementations are restricted to the concrete types that product code stores
+// into that field (a one-level type-flow; falls back to all implementations when a stored type is unknown).
+func (p *Prog) CallTargets(in *Func, info *types.Info, call *ast.CallExpr, fn *types.Func) []*Func {
+	if cf := p.FuncOf(fn); cf != nil {
+		return []*Func{cf}
+	}
+	sig, ok := fn.Type().(*types.Signature)
+	if !ok || sig.Recv() == nil {
+		return nil
+	}
+	if _, isI := sig.Recv().Type().Underlying().(*types.Interface); !isI {
+		return nil
+	}
+	impls := p.Implementations(fn)
+	var restrict map[*types.Named]bool
+	if sel, ok := ast.Unparen(call.Fun).(*ast.SelectorExpr); ok {
+		if fld := p.fieldBehind(in, info, sel.X, 0); fld != nil {
+			if ts, known := p.FieldConcreteTypes(fld); known && len(ts) > 0 {
+				restrict = map[*types.Named]bool{}
+				for _, t := range ts {
+					restrict[t] = true
+				}
+			}
+		}
+	}
+	var out []*Func
+	for _, m := range impls {
+		rn := RecvNamed(m)
+		if restrict != nil && (rn == nil || !restrict[rn]) {
+			continue
+		}
+		if cf := p.FuncOf(m); cf != nil {
+			out = append(out, cf)
+		}
+	}
+	return out
+}
+
+// fieldBehind: expression e is x.F, x.F.(T), or a local variable assigned only from such an expression.
+func (p *Prog) fieldBehind(in *Func, info *types.Info, e ast.Expr, depth int) *types.Var {
+	e = ast.Unparen(e)
+	switch t := e.(type) {
+	case *ast.TypeAssertExpr:
+		return p.fieldBehind(in, info, t.X, depth)
+	case *ast.SelectorExpr:
+		if v, ok := info.Uses[t.Sel].(*types.Var); ok && v.IsField() {
+			if _, isI := v.Type().Underlying().(*types.Interface); isI {
+				return v
+			}
+		}
+	case *ast.Ident:
+		v, ok := info.Uses[t].(*types.Var)
+		if !ok || v.IsField() || in == nil || depth > 2 {
+			return nil
+		}
+		as := AssignedExprs(info, in.Decl, v)
+		if len(as) == 1 {
+			return p.fieldBehind(in, info, as[0], depth+1)
+		}
+	}
+	return nil
+}
+
+// FieldConcreteTypes returns the named types of the values product code stores into an interface-typed field
+// (directly, or through a setter parameter one level up). known=false when some stored value's type is unknown.
+func (p *Prog) FieldConcreteTypes(fld *types.Var) ([]*types.Named, bool) {
+	set := map[*types.Named]bool{}
+	known := true
+	addType := func(t types.Type) bool {
+		if ptr, ok := t.(*types.Pointer); ok {
+			t = ptr.Elem()
+		}
+		if n, ok := t.(*types.Named); ok {
+			if _, isI := n.Underlying().(*types.Interface); !isI {
+				set[n] = true
+				return true
+			}
+		}
+		return false
+	}
+	for _, ref := range p.Refs(fld) {
+		if !ref.Write || ref.In == nil {
+			continue
+		}
+		info := ref.Pkg.TypesInfo
+		var val ast.Expr
+		ast.Inspect(ref.In.Decl, func(n ast.Node) bool {
+			switch t := n.(type) {
+			case *ast.AssignStmt:
+				if len(t.Lhs) == len(t.Rhs) {
+					for i, l := range t.Lhs {
+						if ast.Unparen(l) == ref.Node {
+							val = t.Rhs[i]
+						}
+					}
+				}
+			case *ast.KeyValueExpr:
+				if t.Key == ref.Node {
+					val = t.Value
+				}
+			}
+			return val == nil
+		})
+		if val == nil {
+			known = false
+			continue
+		}
+		tv, ok := info.Types[val]
+		if ok && (tv.IsNil() || addType(tv.Type)) {
+			continue
+		}
+		// a parameter of the enclosing function: look at the arguments of its call sites
+		prm, isV := SelObj(info, val).(*types.Var)
+		idx := -1
+		if isV && ref.In.Obj != nil {
+			sig := ref.In.Obj.Type().(*types.Signature)
+			for i := 0; i < sig.Params().Len(); i++ {
+				if sig.Params().At(i) == prm {
+					idx = i
+				}
+			}
+		}
+		if idx < 0 {
+			known = false
+			continue
+		}
+		sites := p.SitesDyn(ref.In.Obj)
+		if len(sites) == 0 || len(p.Refs(ref.In.Obj)) > 0 {
+			known = false
+		}
+		for _, s := range sites {
+			if idx >= len(s.Call.Args) {
+				known = false
+				continue
+			}
+			atv, ok := s.Pkg.TypesInfo.Types[s.Call.Args[idx]]
+			if !ok || !(atv.IsNil() || addType(atv.Type)) {
+				known = false
+			}
+		}
+	}
+	var out []*types.Named
+	for t := range set {
+		out = append(out, t)
+	}
+	sort.Slice(out, func(i, j int) bool { return out[i].Obj().Name() < out[j].Obj().Name() })
+	return out, known
+}
